@@ -18,6 +18,10 @@ use vm_memory::bitmap::AtomicBitmap;
 #[derive(Clone, Debug, PartialEq)]
 pub enum Op {
     SetRange(usize, usize),
+    /// the same through `Bitmap::mark_dirty`
+    MarkDirty(usize, usize),
+    /// `slice_at(base).mark_dirty(offset, len)`
+    MarkSlice(usize, usize, usize),
     SetBit(usize),
     ResetRange(usize, usize),
     ResetBit(usize),
@@ -111,6 +115,11 @@ fn worker(i: usize, s: &'static Shared) {
         for op in &ops {
             match op {
                 Op::SetRange(a, l) => bm.set_addr_range(*a, *l),
+                Op::MarkDirty(a, l) => vm_memory::bitmap::Bitmap::mark_dirty(bm.as_ref(), *a, *l),
+                Op::MarkSlice(base, a, l) => {
+                    use vm_memory::bitmap::Bitmap;
+                    bm.as_ref().slice_at(*base).mark_dirty(*a, *l)
+                }
                 Op::SetBit(b) => bm.set_bit(*b),
                 Op::ResetRange(a, l) => bm.reset_addr_range(*a, *l),
                 Op::ResetBit(b) => bm.reset_bit(*b),
@@ -217,7 +226,8 @@ fn pages_of(op: &Op, pages: usize, ps: usize) -> (Vec<usize>, Vec<usize>) {
         if l == 0 { vec![] } else { (a / ps..=a.saturating_add(l - 1) / ps).take_while(|p| *p < pages).collect() }
     };
     match op {
-        Op::SetRange(a, l) => (range(*a, *l), vec![]),
+        Op::SetRange(a, l) | Op::MarkDirty(a, l) => (range(*a, *l), vec![]),
+        Op::MarkSlice(b, a, l) => (range(*b + *a, *l), vec![]),
         Op::SetBit(b) => (if *b < pages { vec![*b] } else { vec![] }, vec![]),
         Op::ResetRange(a, l) => (vec![], range(*a, *l)),
         Op::ResetBit(b) => (vec![], if *b < pages { vec![*b] } else { vec![] }),
@@ -285,7 +295,16 @@ fn gen_op(t: &mut Tape, pages: usize, focus: usize, ps: usize, byte_size: usize)
         0 | 1 => Op::SetBit(near(t)),
         2 => {
             let p = near(t);
-            Op::SetRange(addr(t, p), 1 + t.idx(4 * ps))
+            let (a, l) = (addr(t, p), 1 + t.idx(4 * ps));
+            match t.below(3) {
+                0 => Op::SetRange(a, l),
+                // the way guest-memory writes mark: through the Bitmap trait / a slice of the bitmap
+                1 => Op::MarkDirty(a, l),
+                _ => {
+                    let b = t.idx(a + 1);
+                    Op::MarkSlice(b, a - b, l)
+                }
+            }
         }
         3 => {
             let p = near(t).saturating_sub(t.idx(4));
@@ -328,7 +347,7 @@ fn gen_program(t: &mut Tape) -> Program {
 }
 
 fn shape_labels(prog: &Program, ex: &Execution, cx: &mut Cx) {
-    let markers = prog.threads.iter().filter(|th| th.iter().any(|o| matches!(o, Op::SetBit(_) | Op::SetRange(..)))).count();
+    let markers = prog.threads.iter().filter(|th| th.iter().any(|o| matches!(o, Op::SetBit(_) | Op::SetRange(..) | Op::MarkDirty(..) | Op::MarkSlice(..)))).count();
     let harvesters = prog.threads.iter().filter(|th| th.iter().any(|o| matches!(o, Op::Harvest))).count();
     let resetters = prog.threads.iter().filter(|th| th.iter().any(|o| matches!(o, Op::ResetBit(_) | Op::ResetRange(..)))).count();
     if markers >= 2 {
@@ -453,7 +472,7 @@ fn gen_scopes(tier: Tier) -> Box<dyn Iterator<Item = Vec<u64>>> {
 pub fn property() -> Property {
     Property {
         id: "C08",
-        rule: "a case = a concurrent program (2..3 threads x 1..4 operations from set_addr_range, set_bit, reset_addr_range, reset_bit, get_and_reset, clone, is_bit_set on pages that share a 64-bit word or span two, page sizes {1, 3, 48, 1000, 4096} with byte-addressed ranges and a possibly partial last page, bitmaps created smaller and enlarged before being shared, resets that run from the middle to the end, optionally pre-marked pages) + a schedule: at every atomic operation of the bitmap (hook H2) the tape chooses which thread advances; small scopes (30 hand-picked program shapes, more and deeper in the thorough tier) have ALL their interleavings enumerated depth-first (counter 'schedules'); oracle = history invariant: harvested U final U clones are subsets of the marked pages, no page index >= page count, and every marked page that no thread reset is harvested or still set; non-trivial = a schedule that actually interleaves the threads (more context switches than threads), every enumerated scope; distinct = decoded (program, schedule)",
+        rule: "a case = a concurrent program (2..3 threads x 1..4 operations from set_addr_range, Bitmap::mark_dirty directly and through slice_at(base), set_bit, reset_addr_range, reset_bit, get_and_reset, clone, is_bit_set on pages that share a 64-bit word or span two, page sizes {1, 3, 48, 1000, 4096} with byte-addressed ranges and a possibly partial last page, bitmaps created smaller and enlarged before being shared, resets that run from the middle to the end, optionally pre-marked pages) + a schedule: at every atomic operation of the bitmap (hook H2) the tape chooses which thread advances; small scopes (30 hand-picked program shapes, more and deeper in the thorough tier) have ALL their interleavings enumerated depth-first (counter 'schedules'); oracle = history invariant: harvested U final U clones are subsets of the marked pages, no page index >= page count, and every marked page that no thread reset is harvested or still set; non-trivial = a schedule that actually interleaves the threads (more context switches than threads), every enumerated scope; distinct = decoded (program, schedule)",
         assumptions: &["only sequentially consistent interleavings at the granularity of the instrumented atomic operations are produced; weak-memory reorderings are out of reach", "how often a page is reported is not asserted (over-reporting is allowed by the statement)", "reset() (plain store, documented as non-harvesting) is not part of the generated programs"],
         subchecks: vec![
             SubCheck { name: "scopes", builds: &[Build::Std], kind: Kind::Exhaustive { gen: gen_scopes }, run: run_scope },
